@@ -216,7 +216,7 @@ class FakeHashlib:
 OPTIONS_BOOL = ['trim_attribute_space', 'implicit_i18n_translate', 'strict', 'enable_data_attributes',
                 'enable_comment_interpolation', 'restricted_namespace']
 OPTIONS_OTHER = {'boolean_attributes': [None, ('checked',), ()], 'implicit_i18n_attributes': [(), ('alt',)],
-                 'default_expression': ['python', 'string']}
+                 'default_expression': ['python', 'string'], 'mode': ['xml', 'text']}
 
 
 def flatten(x):
@@ -263,7 +263,7 @@ def pick(table, idx):
 
 def key(o: int, a1: int, a2: int) -> bool:
     """
-    pre: 0 <= o < 9 and 0 <= a1 < 3 and 0 <= a2 < 3
+    pre: 0 <= o < 10 and 0 <= a1 < 4 and 0 <= a2 < 4
     post: _
     """
     # two configurations: same class / file name / body unless stated; they differ in exactly one
@@ -288,8 +288,12 @@ def key(o: int, a1: int, a2: int) -> bool:
                 return _res(True)
             o1[name], o2[name] = (a1 == 1), (a2 == 1)
     elif mode == 'body':
+        if a1 >= len(BODIES) or a2 >= len(BODIES):
+            return _res(True)
         body1, body2 = pick(BODIES, a1), pick(BODIES, a2)
     elif mode == 'body_xml':
+        if a1 >= len(BODIES_XML) or a2 >= len(BODIES_XML):
+            return _res(True)
         body1, body2 = pick(BODIES_XML, a1), pick(BODIES_XML, a2)
     elif mode == 'class':
         k1, k2 = pick([0, 1, 2, 3], a1), pick([0, 1, 2, 3], a2)
@@ -298,7 +302,7 @@ def key(o: int, a1: int, a2: int) -> bool:
             return _res(True)      # a string template and a file template never share a file name pattern
     elif mode == 'filename':
         k1 = k2 = 2
-        files = ['/a/site_a/index.pt', '/a/site_b/index.pt', '/a/site_a/other.pt']
+        files = ['/a/site_a/index.pt', '/a/site_b/index.pt', '/a/site_a/other.pt', '/a/site_a/index.html']
         f1, f2 = pick(files, a1), pick(files, a2)
     a = module_key(k1, f1, body1, o1)
     b = module_key(k2, f2, body2, o2)
